@@ -221,6 +221,15 @@ def run(ctx):
     scs = scenarios(ctx.quick)
     bases, runs = land.sweep(scs, ['terminate'], full=full)
     runs += land.run_cases(idle_cases())
+    # the same scenarios with the other landing alphabet: right after every call made by the run-loop functions and the target has
+    # returned (differs from the start of the next line where that line lies in another try range); short paths: every point
+    post_scs = [dict(s_, post_call=True) for s_ in scs]
+    pbases, pruns = land.sweep(post_scs, ['terminate'], full=True)
+    for b, s_ in zip(pbases, post_scs):
+        if not b.get('events_total'):
+            ctx.selftest_fail('post-call base path of %s/%s produced no landing point' % (s_['kind'], s_['target']))
+    ctx.extra['post_call_landing_runs'] = len(pruns)
+    runs += pruns
     # parent-side preemption points of ThreadWorker.terminate (the only terminate that raises and releases from the caller's thread)
     pb, pr = land.sweep(preempted_parent_scenarios(), lambda s_: ['sleep'], full=True)
     for b in pb:
@@ -239,7 +248,7 @@ def run(ctx):
         site = ((obs.get('landed') or [{}])[0].get('site')) or case.get('_site')      # where it really landed in this run
         ctx.count()
         ev = case.get('events') or [{}]
-        ctx.distinct((case['kind'], case['target'], case.get('phase'), ev[0].get('k') if ev else None))
+        ctx.distinct((case['kind'], case['target'], case.get('phase'), ev[0].get('k') if ev else None, bool(case.get('post_call'))))
         v = judge(case, obs, site)
         ssig = land.site_sig(site, REPO) if site else 'blocked-waiting-for-input'
         landed = (obs.get('landed') or [{}])[0]
@@ -255,7 +264,7 @@ def run(ctx):
             continue
         sig = 'LAND/%s/%s/terminate@%s/%s' % (case['kind'], case.get('phase'), ssig, v[0])
         ctx.violation(sig, {'kind': case['kind'], 'target': case['target'], 'phase': case.get('phase'), 'inputs': case.get('inputs'),
-                            'events': case.get('events'), 'site': site, 'release': landed.get('release')},
+                            'events': case.get('events'), 'site': site, 'release': landed.get('release'), 'post_call': case.get('post_call')},
                       {'terminate_ret': obs.get('terminate_ret'), 'rounds': (obs.get('rounds') or [None])[-1], 'marker': obs.get('marker')},
                       'terminate True, dead, target own outcome or WorkerTerminatedError outcome (strictly the latter inside the target)', engine='LAND')
     if nbad_harness > max(3, len(runs) // 50):
@@ -276,7 +285,7 @@ def replay(ctx, rec):
         if v and v[0] not in ('harness', 'beyond-end'):
             ctx.violation(rec['signature'], c, v[1], rec.get('expected'), engine='LAND')
         return
-    case = {k: c[k] for k in ('kind', 'target', 'phase', 'inputs', 'events') if c.get(k) is not None}
+    case = {k: c[k] for k in ('kind', 'target', 'phase', 'inputs', 'events', 'post_call') if c.get(k) is not None}
     if case['kind'].startswith('P') and len(case['kind']) == 2:
         case['close'] = c.get('phase') != 'idle-waiting-for-input'
         if not case['close']:
